@@ -67,7 +67,7 @@ def call_sites(roots, names, with_callee=False):
 
 
 @contextlib.contextmanager
-def delay_sites(sites, delay):
+def delay_sites(sites, delay, files=('replicat/repository.py',)):
     """every time a thread started inside the block reaches one of `sites` it sleeps `delay` seconds. A window between two calls that should
     have been one critical section (or one atomic test) is held open every time it is passed - unlike random preemption, which has to hit
     the one iteration that matters."""
@@ -79,7 +79,7 @@ def delay_sites(sites, delay):
     def tracer(frame, event, arg):
         code = frame.f_code
         offs = want.get(code.co_name)
-        if offs and code.co_filename.endswith('replicat/repository.py'):
+        if offs and code.co_filename.endswith(files):
             frame.f_trace_opcodes = True
 
             def local(frame, event, arg):
